@@ -113,12 +113,14 @@ Definition with_default {A} (k : string) (m : list (string * yval)) (d : A) (f :
 Definition de_option {A} (f : yval -> option A) (v : yval) : option (option A) :=
   match v with YNull => Some None | _ => match f v with Some x => Some (Some x) | None => None end end.
 
-Definition de_deprecated (v : yval) : option deprecated :=
+(** [lz]: the value is read straight from serde_yaml's deserialiser (a Field's own `deprecated`), which
+    hands `null` to a sequence visitor as an empty sequence; below `args` the buffered Content is strict *)
+Definition de_deprecated_l (lz : bool) (v : yval) : option deprecated :=
   match v with
   | YMap m =>
       match alookup "message" m with
       | Some mv =>
-          match de_str mv, with_default "replace" m [] de_strs with
+          match de_str mv, with_default "replace" m [] (fun rv => match rv with YNull => if lz then Some [] else de_strs rv | _ => de_strs rv end) with
           | Some msg, Some rep => Some {| dep_message := msg; dep_replace := rep |}
           | _, _ => None
           end
@@ -126,6 +128,7 @@ Definition de_deprecated (v : yval) : option deprecated :=
       end
   | _ => None
   end.
+Definition de_deprecated := de_deprecated_l false.
 
 Definition de_writability (v : yval) : option writability :=
   match v with
@@ -213,7 +216,7 @@ Definition de_kind (m : list (string * yval)) : option field_kind :=
 Definition de_field (v : yval) : option field :=
   match v with
   | YMap m =>
-      match with_default "deprecated" m None (de_option de_deprecated),
+      match with_default "deprecated" m None (de_option (de_deprecated_l true)),
             de_kind (List.filter (fun kv => negb (str_eqb (fst kv) "deprecated")) m) with
       | Some d, Some k => Some {| f_kind := k; f_deprecated := d |}
       | _, _ => None
